@@ -29,7 +29,7 @@ import (
 	"verif/sims/fullnode"
 )
 
-var syncTampers = []string{"honest", "honest", "honest", "tx", "apphash", "commit-underweight", "commit-other-block", "commit-badsig", "other-height", "silent", "forged", "nil-block", "garbage", "nil-header", "nil-data", "nil-lastcommit", "huge-height", "commit-all-missing"}
+var syncTampers = []string{"honest", "honest", "honest", "tx", "apphash", "commit-underweight", "commit-other-block", "commit-badsig", "other-height", "silent", "forged", "nil-block", "garbage", "nil-header", "nil-data", "nil-lastcommit", "huge-height", "commit-all-missing", "commit-exact-two-thirds"}
 
 // scriptedReactor speaks the block-sync protocol for a puppet peer.
 type scriptedReactor struct {
@@ -129,6 +129,35 @@ func (w *world) serveBlock(h int64, how string, peer int) *types.Block {
 		if b.LastCommit != nil {
 			for i := range b.LastCommit.Precommits {
 				if i > 0 || len(b.LastCommit.Precommits) == 1 {
+					b.LastCommit.Precommits[i] = nil
+				}
+			}
+		}
+	case "commit-exact-two-thirds":
+		// precommits worth exactly two thirds of the power in force (when some subset adds up to that), else fewer
+		if b.LastCommit != nil && h >= 2 {
+			vals := w.valHist[h-2]
+			if h == 2 || vals == nil {
+				vals = map[string]int64{}
+				for _, gv := range w.env.Genesis.Validators {
+					vals[string(gv.PubKey.Address())] = gv.Amount
+				}
+				if h > 2 && w.valHist[h-2] != nil {
+					vals = w.valHist[h-2]
+				}
+			}
+			var total, kept int64
+			for _, p := range vals {
+				total += p
+			}
+			for i, pc := range b.LastCommit.Precommits {
+				if pc == nil {
+					continue
+				}
+				p := vals[string(pc.ValidatorAddress)]
+				if (kept+p)*3 <= total*2 {
+					kept += p
+				} else {
 					b.LastCommit.Precommits[i] = nil
 				}
 			}
